@@ -102,25 +102,26 @@ type Sim struct {
 // running task must park before touching shared state) and are never
 // disabled.
 var mandatory = map[string]bool{
-	"worker.wake":         true,
-	"worker.start":        true,
-	"queryEventExpire":    true, // woken by the clock, possibly together with another timer
-	"Shutdown":            true,
-	"runWith.afterSignal": true,
-	"task.start":          true,
-	"call.return":         true,
-	"actor.op":            true,
-	"life.wait":           true,
-	"keylock.wake":        true,
-	"updateIndex.start":   true,
+	"worker.wake":          true,
+	"worker.start":         true,
+	"queryEventExpire":     true, // woken by the clock, possibly together with another timer
+	"Shutdown":             true,
+	"runWith.afterSignal":  true,
+	"task.start":           true,
+	"call.return":          true,
+	"actor.op":             true,
+	"life.wait":            true,
+	"serve.retrywait":      true,
+	"keylock.wake":         true,
+	"updateIndex.start":    true,
 	"handleChange.afterDo": true,
-	"store.open":          true,
-	"mut.op":              true,
-	"mut.intxn":           true,
-	"query.start":         true,
-	"query.next":          true,
-	"crash.op":            true,
-	"crash.restart":       true,
+	"store.open":           true,
+	"mut.op":               true,
+	"mut.intxn":            true,
+	"query.start":          true,
+	"query.next":           true,
+	"crash.op":             true,
+	"crash.restart":        true,
 }
 
 // New creates a simulation driven by the tape.
@@ -445,7 +446,7 @@ func (s *Sim) Pick(acts []Action) Action {
 	if s.sticky > 0 && s.running != nil && len(acts) > 1 {
 		for _, a := range acts {
 			if a.task == s.running {
-				if s.Tape.Choose(100) < s.sticky {
+				if s.Tape.Choose(100) >= 100-s.sticky { // a zero draw (shrunk or exhausted tape) never sticks
 					return a
 				}
 				break
